@@ -40,10 +40,16 @@ struct NodeRig {
     id: u8,
     addr: SocketAddr,
     store: Arc<MemStore>,
-    group: KeyspaceGroup<MemStore>,
+    group: parking_lot::Mutex<KeyspaceGroup<MemStore>>,
     clock: Clock,
     network: RpcNetwork,
     server: Server,
+}
+
+impl NodeRig {
+    fn grp(&self) -> KeyspaceGroup<MemStore> {
+        self.group.lock().clone()
+    }
 }
 
 struct Rig {
@@ -65,7 +71,7 @@ impl Rig {
             let server = Server::listen(addr).await.expect("listen");
             server.add_service(ConsistencyService::new(group.clone(), network.clone()));
             server.add_service(ReplicationService::new(group.clone()));
-            nodes.insert(*id, NodeRig { id: *id as u8, addr, store, group, clock, network, server });
+            nodes.insert(*id, NodeRig { id: *id as u8, addr, store, group: parking_lot::Mutex::new(group), clock, network, server });
         }
         // the harness' own clock for the RPCs it sends on behalf of "the network"
         verif::set_node_wall(250, Some(Duration::from_secs(0)));
@@ -153,7 +159,7 @@ async fn run_behaviour(rig: &Rig, b: &Value, idx: u64, f: u64) -> Outcome {
                 }
                 let keys: Vec<u64> = s["keys"].as_array().unwrap().iter().map(|k| k.as_u64().unwrap()).collect();
                 let its: Vec<(u64, HLCTimestamp)> = keys.iter().map(|k| (*k, ts)).collect();
-                let actor = n.group.get_or_create_keyspace(&ks).await;
+                let actor = n.grp().get_or_create_keyspace(&ks).await;
                 let ok = match (del, keys.len() > 1) {
                     (false, false) => actor.send(Set { source: 0, doc: docs_of(&its).remove(0), ctx: None, _marker: PhantomData::<MemStore> }).await.is_ok(),
                     (true, false) => actor.send(Del { source: 0, doc: metas_of(&its).remove(0), _marker: PhantomData::<MemStore> }).await.is_ok(),
@@ -202,7 +208,7 @@ async fn run_behaviour(rig: &Rig, b: &Value, idx: u64, f: u64) -> Outcome {
                             // first half on its own: what the handler does before its second loop
                             to.clock.register_ts(cts).await;
                             if !removed.is_empty() {
-                                let actor = to.group.get_or_create_keyspace(&ks).await;
+                                let actor = to.grp().get_or_create_keyspace(&ks).await;
                                 let _ = actor.send(MultiDel { source: 0, docs: metas_of(&removed), _marker: PhantomData::<MemStore> }).await;
                             }
                             Ok(())
@@ -210,7 +216,7 @@ async fn run_behaviour(rig: &Rig, b: &Value, idx: u64, f: u64) -> Outcome {
                     },
                     ("batch2", _) => {
                         if !modified.is_empty() {
-                            let actor = to.group.get_or_create_keyspace(&ks).await;
+                            let actor = to.grp().get_or_create_keyspace(&ks).await;
                             let _ = actor.send(MultiSet { source: 0, docs: docs_of(&modified), ctx: None, _marker: PhantomData::<MemStore> }).await;
                         }
                         Ok(())
@@ -240,7 +246,7 @@ async fn run_behaviour(rig: &Rig, b: &Value, idx: u64, f: u64) -> Outcome {
                 let (n, p) = (s["n"].as_u64().unwrap(), s["p"].as_u64().unwrap());
                 let me = &rig.nodes[&n];
                 let e = exch.get_mut(&(n, p)).expect("diff before getstate");
-                let actor = me.group.get_or_create_keyspace(&ks).await;
+                let actor = me.grp().get_or_create_keyspace(&ks).await;
                 let (modified, removed) = actor.send(Diff(e.snap.take().unwrap())).await;
                 e.modified = modified;
                 e.removed = removed;
@@ -248,7 +254,7 @@ async fn run_behaviour(rig: &Rig, b: &Value, idx: u64, f: u64) -> Outcome {
             "removals" => {
                 let (n, p) = (s["n"].as_u64().unwrap(), s["p"].as_u64().unwrap());
                 let e = exch.get(&(n, p)).expect("removals before diff");
-                if let Err(err) = repair::apply_removals(&rig.nodes[&n].group, &ks, metas_of(&e.removed)).await {
+                if let Err(err) = repair::apply_removals(&rig.nodes[&n].grp(), &ks, metas_of(&e.removed)).await {
                     out.tool_error = Some(format!("step {i}: handle_removals failed: {err}"));
                     return out;
                 }
@@ -261,7 +267,7 @@ async fn run_behaviour(rig: &Rig, b: &Value, idx: u64, f: u64) -> Outcome {
                 if next_is_apply {
                     // fetch + apply adjacent: the real handle_modified does both
                     i += 1;
-                    if let Err(err) = repair::apply_modified(&me.group, &me.network, &ks, metas_of(&e.modified), p as u8, rig.nodes[&p].addr).await {
+                    if let Err(err) = repair::apply_modified(&me.grp(), &me.network, &ks, metas_of(&e.modified), p as u8, rig.nodes[&p].addr).await {
                         out.tool_error = Some(format!("step {i}: handle_modified failed: {err}"));
                         return out;
                     }
@@ -283,12 +289,12 @@ async fn run_behaviour(rig: &Rig, b: &Value, idx: u64, f: u64) -> Outcome {
                 let me = &rig.nodes[&n];
                 let e = exch.get_mut(&(n, p)).expect("modified before fetch");
                 let docs = e.fetched.take().expect("modified before fetch");
-                let actor = me.group.get_or_create_keyspace(&ks).await;
+                let actor = me.grp().get_or_create_keyspace(&ks).await;
                 let _ = actor.send(MultiSet { source: 1, docs: DocVec::from_vec(docs), ctx: None, _marker: PhantomData::<MemStore> }).await;
             },
             "purge" => {
                 let n = &rig.nodes[&s["n"].as_u64().unwrap()];
-                let actor = n.group.get_or_create_keyspace(&ks).await;
+                let actor = n.grp().get_or_create_keyspace(&ks).await;
                 let _ = actor.send(PurgeDeletes(PhantomData::<MemStore>)).await;
             },
             "restart" => {
@@ -301,8 +307,10 @@ async fn run_behaviour(rig: &Rig, b: &Value, idx: u64, f: u64) -> Outcome {
                 }
                 n.server.add_service(ConsistencyService::new(group.clone(), n.network.clone()));
                 n.server.add_service(ReplicationService::new(group.clone()));
-                out.tool_error = Some("restart steps need a rig of their own (not supported in a shared rig)".into());
-                return out;
+                *n.group.lock() = group;
+                // the node's own repair exchanges died with it
+                let nid = s["n"].as_u64().unwrap();
+                exch.retain(|k, _| k.0 != nid);
             },
             other => panic!("step {other}"),
         }
@@ -312,7 +320,7 @@ async fn run_behaviour(rig: &Rig, b: &Value, idx: u64, f: u64) -> Outcome {
     let keys: Vec<u64> = b["expect"].as_array().map(|a| (1..=a.len() as u64).collect()).unwrap_or_default();
     let mut reads = serde_json::Map::new();
     for (id, n) in &rig.nodes {
-        let actor = n.group.get_or_create_keyspace(&ks).await;
+        let actor = n.grp().get_or_create_keyspace(&ks).await;
         let set = decode_set(&actor.send(Serialize).await.expect("serialize"));
         let mut meta: Vec<(u64, HLCTimestamp, bool)> = n.store.iter_metadata(&ks).await.unwrap().collect();
         meta.sort();
@@ -370,13 +378,16 @@ pub async fn replay() {
     let mut sum = Summary::default();
     let mut rig = Rig::new(&ids).await;
     let mut in_rig = 0u64;
+    let mut last_had_restart = false;
     let mut steps_total = 0u64;
     let mut kinds: BTreeMap<String, u64> = BTreeMap::new();
     for (idx, b) in behaviours.iter().enumerate() {
-        if in_rig >= 20_000 {
+        let has_restart = b["hist"].as_array().unwrap().iter().any(|s| s["a"] == "restart");
+        if in_rig >= 20_000 || has_restart || last_had_restart {
             rig = Rig::new(&ids).await;
             in_rig = 0;
         }
+        last_had_restart = has_restart;
         in_rig += 1;
         sum.evaluations += 1;
         for s in b["hist"].as_array().unwrap() {
